@@ -172,7 +172,7 @@ where
     let base = purpose_name::<P>();
     let purpose = pname::<P, C>();
     let purpose = purpose.as_str();
-    let key: Key<B::V, P::SealingKey> = key_from_bytes(seal_key).expect("sealing key parses");
+    let key = cached_key::<B::V, P::SealingKey>(seal_key).expect("sealing key parses");
     let kid = rec.intern(seal_key);
     let cid = rec.intern(claims);
     let fid = rec.intern(footer);
@@ -303,7 +303,7 @@ pub fn present_fc<B: Backend, P: Purpose, F: HFooter, const C: bool>(
         _ => (wid, fid),
     };
     rec.emit(json!({"ev":"ParseRet","be":B::NAME,"str":sid,"ver":B::VER,"purpose":purpose,"ok":true,"wire":wid,"footer":fid,"ufooter":ufid,"pwire":pwid,"pfooter":pfid}));
-    let Ok(key) = key_from_bytes::<B::V, P>(unseal_key) else {
+    let Ok(key) = cached_key::<B::V, P>(unseal_key) else {
         rec.emit(json!({"ev":"Note","what":"unsealing key does not parse for this backend","be":B::NAME}));
         return;
     };
@@ -749,6 +749,10 @@ where
             }
             // 10. header relabel: the same payload/footer under every other version and purpose
             relabel::<B, P>(rec, st, &s, km, &aad, &mut rng);
+            // 11. after all those rejections the honest tokens are still accepted (the long-lived key objects were not
+            // altered; nothing a failed call left behind leaks into the next one)
+            present::<B, P>(rec, st, &s.text, &km.unseal, &aad, DecodeMode::Ok, true, json!({"cls":"honest-after-failures"}));
+            present::<B, P>(rec, st, &s2.text, &km.unseal, &aad, DecodeMode::Ok, true, json!({"cls":"honest-after-failures"}));
         }
     }
     // the payload encoding is part of the header (vN.purpose. / vNc.purpose.): a token sealed as one encoding and
